@@ -79,6 +79,10 @@ def gen_fault_plan(rng, st, prof):
         elif k == "crash-step" and st["steps"]:
             i = rng.randrange(len(st["steps"]))
             plan.append({"kind": "crash", "at": "step", "inv": i + 1, "n": rng.randrange(1, max(2, st["steps"][i]))})
+        elif k == "clock-jump" and st["steps"]:
+            i = rng.randrange(len(st["steps"]))
+            plan.append({"kind": "clock-jump", "inv": i + 1, "n": rng.randrange(1, max(2, st["steps"][i])),
+                         "delta": rng.choice([-30.0, -2.0, -0.5, 0.5, 2.0, 30.0, 4000.0])})
         elif k == "spurious" and st["inv"] > 1:
             plan.append({"kind": "spurious", "after_inv": rng.randrange(1, st["inv"])})
         elif k == "apierr" and st["api"]:
@@ -109,6 +113,8 @@ def run_cfg(check, cfg, golden=None):
         wg = run_execution(g)
         golden = {"final": oracles.final_outcome(wg), "stats": golden_stats(wg)}
         golden.update(check.golden_info(wg, oracles.Index(wg)))
+    if _IN_WORKER:
+        faulthandler.dump_traceback_later(WATCHDOG_S, exit=True)  # re-armed for every execution
     w = run_execution(cfg)
     for i in w.invocations:
         if str(i["outcome"]).startswith("harness"):
@@ -162,6 +168,14 @@ def _account(res, check, cfg, w, ix, vs, history=()):
     res["sigs"].append((signature(cfg, w), nt))
     for k, v in w.fired.items():
         res["fired"][k] = res["fired"].get(k, 0) + v
+    stalls = sum(1 for i in w.invocations for k in i["choices"] if str(k).startswith("y"))
+    preempt = sum(1 for i in w.invocations for k in i["choices"] if not str(k).startswith("y"))
+    for name, n in (("stall", stalls), ("preemption", preempt), ("api-latency>=0.3s-run", int((cfg.get("latency") or [0, 0])[1] >= 0.3)),
+                    ("clock-skew-run", int(bool(cfg.get("skew")))), ("drain-after-return-run", int(bool(cfg.get("drain")))),
+                    ("scaled-size-limits-run", int(bool(cfg.get("limits")))), ("line-preemption-run", int(bool((cfg.get("sched") or {}).get("lines")))),
+                    ("tiny-batch-limits-run", int(bool(cfg.get("batch"))))):
+        if n:
+            res["fired"][name] = res["fired"].get(name, 0) + n
     for k, v in w.reach.items():
         res["reach"][k] = res["reach"].get(k, 0) + v
     for k, v in check.reach(w, ix, cfg).items():
@@ -183,9 +197,35 @@ def _account(res, check, cfg, w, ix, vs, history=()):
         res["violations"].append({"v": v, "cfg": attach_choices(cfg, w), "prelude": list(history)})
 
 
+#: wall-clock limit for ONE simulated execution inside a pool worker. Executions are bounded by step and virtual-time
+#: budgets, so this only fires if the simulator itself wedges; the worker then dies and the parent re-runs its case.
+WATCHDOG_S = 600
+_IN_WORKER = False
+
+
+def _selftest_die(seed_i):
+    """Self-test of the runner's recovery from dead workers (off unless DEXSIM_SELFTEST_DIE is set): 'once:<k>' kills the
+    worker the first time it gets a case whose seed is divisible by k, 'always:<k>' every time."""
+    spec = os.environ.get("DEXSIM_SELFTEST_DIE")
+    if not spec:
+        return
+    mode, k = spec.split(":")
+    if seed_i % int(k):
+        return
+    marker = os.path.join(OUT, f".died-{seed_i}")
+    if mode == "once" and os.path.exists(marker):
+        return
+    os.makedirs(OUT, exist_ok=True)
+    open(marker, "w").close()
+    os.kill(os.getpid(), 11)
+
+
 def _worker(args):
+    global _IN_WORKER
     check_id, seed_i, tier = args
-    faulthandler.dump_traceback_later(240, exit=True)
+    _IN_WORKER = True
+    faulthandler.dump_traceback_later(WATCHDOG_S, exit=True)
+    _selftest_die(seed_i)
     try:
         return ("ok", run_case(check_id, seed_i, tier))
     except BaseException:  # noqa: BLE001
@@ -363,70 +403,110 @@ def run_check(check_id, tier, seed, workers=None, max_wall=None, n_cases=None, v
     errors = []
     truncated = False
     ctx = multiprocessing.get_context("fork")
-    with ProcessPoolExecutor(max_workers=workers, mp_context=ctx) as pool:
-        futs = {}
-        it = iter(seeds)
-        pending = set()
+    notes = []          # worker deaths that a re-run recovered from (evidence only)
+    attempts = {}       # case seed -> submissions so far
+    todo = list(reversed(seeds))
+    alone = []          # cases that were pending at two pool breaks: re-run one at a time
 
-        def submit_more():
-            while len(pending) < workers * 2:
-                try:
-                    s = next(it)
-                except StopIteration:
-                    return
-                f = pool.submit(_worker, (check_id, s, tier))
-                futs[f] = s
-                pending.add(f)
-
-        submit_more()
-        while pending:
-            done = next(as_completed(pending, timeout=600))
-            pending.discard(done)
-            try:
-                kind, r = done.result()
-            except Exception as e:  # noqa: BLE001 - dead worker
-                kind, r = "err", {"seed": futs[done], "tb": f"worker died: {e!r}"}
-            if kind == "err":
-                errors.append(r)
+    def absorb(r):
+        nonlocal unknown_total
+        agg["cases"] += 1
+        for k in ("evals", "steps", "switches", "invocations", "threads", "line_events"):
+            agg[k] += r[k]
+        agg["vtime"] += r["vtime"]
+        for sig, nt in r["sigs"]:
+            agg["sigs"].add(sig)
+            if nt:
+                agg["nt_sigs"].add(sig)
+        for d in ("fired", "reach", "outcomes"):
+            for k, v in r[d].items():
+                agg[d][k] = agg[d].get(k, 0) + v
+        if r["sample"] and len(samples) < 3 and (r["sample"].get("nontrivial") or not samples):
+            samples.append(r["sample"])
+        for v in r["violations"]:
+            v["seed"] = r["seed"]
+            key = (v["v"]["prop"], v["v"]["cls"])
+            cls_counts[key] = cls_counts.get(key, 0) + 1
+            if match_known(v["v"], known_now) is not None:
+                known_seen[key] = known_seen.get(key, 0) + 1
+                if known_seen[key] > 25:
+                    v["cfg"] = None  # keep the count, drop the bulky config
             else:
-                agg["cases"] += 1
-                for k in ("evals", "steps", "switches", "invocations", "threads", "line_events"):
-                    agg[k] += r[k]
-                agg["vtime"] += r["vtime"]
-                for sig, nt in r["sigs"]:
-                    agg["sigs"].add(sig)
-                    if nt:
-                        agg["nt_sigs"].add(sig)
-                for d in ("fired", "reach", "outcomes"):
-                    for k, v in r[d].items():
-                        agg[d][k] = agg[d].get(k, 0) + v
-                if r["sample"] and len(samples) < 3 and (r["sample"].get("nontrivial") or not samples):
-                    samples.append(r["sample"])
-                for v in r["violations"]:
-                    v["seed"] = r["seed"]
-                    key = (v["v"]["prop"], v["v"]["cls"])
-                    cls_counts[key] = cls_counts.get(key, 0) + 1
-                    if match_known(v["v"], known_now) is not None:
-                        known_seen[key] = known_seen.get(key, 0) + 1
-                        if known_seen[key] > 25:
-                            v["cfg"] = None  # keep the count, drop the bulky config
-                    else:
-                        unknown_total += 1
-                        unknown_seen[key] = unknown_seen.get(key, 0) + 1
-                        if unknown_seen[key] > 40:
-                            v["cfg"] = None
-                    raw_violations.append(v)
-            if time.time() - t0 > max_wall:
-                truncated = True
-                for f in pending:
-                    f.cancel()
-                break
-            if unknown_total > 400:
-                truncated = True
-                for f in pending:
-                    f.cancel()
-                break
-            submit_more()
+                unknown_total += 1
+                unknown_seen[key] = unknown_seen.get(key, 0) + 1
+                if unknown_seen[key] > 40:
+                    v["cfg"] = None
+            raw_violations.append(v)
+
+    def stop_now():
+        return time.time() - t0 > max_wall or unknown_total > 400
+
+    def run_pool(n_workers, source, on_break):
+        """Run cases from `source` (a list used as a stack) until it is empty, the budget is spent or the pool breaks
+        (a worker died: segfault of the interpreter, watchdog). Returns 'done' | 'stop' | 'broken'."""
+        pool = ProcessPoolExecutor(max_workers=n_workers, mp_context=ctx)
+        futs = {}
+        pending = set()
+        completed = set()
+        state = "done"
+        try:
+            while True:
+                while source and len(pending) < n_workers * 2:
+                    sd = source.pop()
+                    attempts[sd] = attempts.get(sd, 0) + 1
+                    f = pool.submit(_worker, (check_id, sd, tier))
+                    futs[f] = sd
+                    pending.add(f)
+                if not pending:
+                    break
+                done = next(as_completed(pending, timeout=WATCHDOG_S + 120))
+                pending.discard(done)
+                kind, r = done.result()
+                completed.add(done)
+                if kind == "err":
+                    errors.append(r)
+                else:
+                    absorb(r)
+                if stop_now():
+                    state = "stop"
+                    break
+        except Exception as e:  # noqa: BLE001 - BrokenProcessPool / TimeoutError: some worker died or wedged
+            state = "broken"
+            on_break(sorted({sd for f, sd in futs.items() if f not in completed}), repr(e)[:200])
+        finally:
+            for f in pending:
+                f.cancel()
+            procs = list((getattr(pool, "_processes", None) or {}).values())
+            pool.shutdown(wait=False, cancel_futures=True)
+            for pr in procs:  # in-flight cases of a stopped / broken pool are abandoned
+                try:
+                    pr.kill()
+                except Exception:  # noqa: BLE001
+                    pass
+        return state
+
+    def on_break_main(lost, why):
+        notes.append(f"a pool worker died ({why}); {len(lost)} pending cases re-run")
+        for sd in lost:
+            (alone if attempts.get(sd, 0) >= 2 else todo).append(sd)
+
+    state = "broken"
+    breaks = 0
+    while state == "broken" and breaks < 25:
+        state = run_pool(workers, todo, on_break_main)
+        breaks += state == "broken"
+    truncated = state == "stop" or bool(todo)
+    # cases that were in flight at two breaks: one at a time, each in its own process, so that a case that really kills
+    # its worker is identified (and skipped with a note) instead of taking the others down again
+    for sd in alone:
+        if stop_now():
+            truncated = True
+            break
+        died = []
+        run_pool(1, [sd], lambda lost, why: died.append(why))
+        if died:
+            notes.append(f"case seed {sd} kills its worker when run alone ({died[0]}): skipped")
+    agg["notes"] = notes
     return finish(check_id, check, tier, seed, t0, agg, samples, raw_violations, errors, truncated, n_cases, workers, verbose)
 
 
@@ -515,6 +595,8 @@ def finish(check_id, check, tier, seed, t0, agg, samples, raw_violations, errors
             print(f"HARNESS-ERROR seed={e['seed']}\n{e['tb']}")
         for m in harness_msgs:
             print(f"HARNESS-ERROR {m}")
+        for m in agg.get("notes", []):
+            print(f"HARNESS-NOTE {m}")
         if exit_code == 0:
             print(f"OK property={check_id} held on everything explored")
     return exit_code
@@ -543,6 +625,7 @@ def write_evidence(check_id, check, tier, seed, agg, samples, wall, reported, kn
             "violations_reported": reported,
             "known_findings_observed": {k: len(v) for k, v in known_hits.items()},
             "harness_errors": len(errors) + len(harness_msgs),
+            "worker_deaths_recovered": agg.get("notes", []),
             "exhaustive": False,
         },
         "assumptions": check.assumptions,
